@@ -12,7 +12,7 @@ import (
 //	f31a  scripted: forced cleanup classifies the file of a commit between setPersist and manager.Add as leaked
 //	f31b  scripted: two namespaces (two backends) share one blob, the first finished write-back clears the flag
 func run(c *eng.Ctx) error {
-	nrand := c.N(44, 700)
+	nrand := c.N(44, 2000)
 	scripted := []string{"f31a/stale", "f31a/reappear", "f31a/live", "f31b/seq", "f31b/race", "f31b/force"}
 	total := nrand + len(scripted)
 	c.Traces(total, func(t int, rng *rand.Rand) {
